@@ -27,6 +27,15 @@ def network(code):
         return network_for_netcode(code)
 
 
+def decoy_hash(code, text):
+    """the same text is first hashed on ANOTHER network (different message magic): what a network computes for a
+    text must not depend on what another network computed before (state shared between signer objects)"""
+    try:
+        network("LTC" if code in ("BTC", "XTN", "XRT") else "BTC").msg.hash_for_signing(text)
+    except Exception:
+        pass
+
+
 _NETCODES = []
 
 
@@ -175,6 +184,7 @@ class Roundtrip(Driver):
         Q = k1.pt_mul(d, G)
         n = 0
         try:
+            decoy_hash(case["net"], text)
             net = network(case["net"])
             e = ref.magic_hash(net.network_name, text)
             key = net.keys.private(d, is_compressed=comp)
@@ -291,6 +301,8 @@ class Cross(Driver):
         same_comp = bool(sg["compressed"]) == bool(v["compressed"])
         want = same_secret and text == vtext and (v["how"] == "key" or same_comp)
         try:
+            decoy_hash(case["net"], text)
+            decoy_hash(case["net"], vtext)
             net = network(case["net"])
             sig = case.get("sig")
             if sig is None:
@@ -408,6 +420,7 @@ class SigText(Driver):
         rec = ref.recover_compact(raw, e) if strict else None
         n = 0
         try:
+            decoy_hash(case["net"], case["msg"])
             net = network(case["net"])
             if net.network_name != case["netname"]:
                 raise Mismatch("network-name", case["netname"], net.network_name, clause="magic-hash")
